@@ -5,7 +5,7 @@ From GMS Require Import Store.C15Editor.
 
 Section Proofs.
 Variable T E : Type.
-Variable apply_opt : T -> list E -> option T * T.
+Variable apply_opt : nat -> T -> list E -> option T * T.
 
 Notation editor := (editor T E).
 Notation call := (call E).
@@ -118,7 +118,7 @@ End Proofs.
 Section Total.
 Variable T E : Type.
 Variable apply : T -> list E -> T.
-Definition total_apply (t : T) (es : list E) : option T * T := (Some (apply t es), apply t es).
+Definition total_apply (_ : nat) (t : T) (es : list E) : option T * T := (Some (apply t es), apply t es).
 
 (* a statement all of whose row-edit calls succeed reports success and publishes ApplyEdits of ALL its edits *)
 Theorem stmt_all_or_nothing (t : T) (cs : list (call E)) :
@@ -137,7 +137,7 @@ Qed.
 End Total.
 
 (* ---- concrete instances for the refutations: tables are lists of numbers, ApplyEdits appends ---- *)
-Definition app_apply (t : list nat) (es : list nat) : option (list nat) * list nat := (Some (t ++ es), t ++ es).
+Definition app_apply (_ : nat) (t : list nat) (es : list nat) : option (list nat) * list nat := (Some (t ++ es), t ++ es).
 
 (* the audit rows written by the trigger for rows 1..k survive the failure of row k *)
 Lemma trigger_effects_survive :
@@ -146,7 +146,7 @@ Lemma trigger_effects_survive :
 Proof. reflexivity. Qed.
 
 (* an ApplyEdits that fails after its first edit: the statement reports an error but the table keeps that edit *)
-Definition failing_apply (t : list nat) (es : list nat) : option (list nat) * list nat :=
+Definition failing_apply (_ : nat) (t : list nat) (es : list nat) : option (list nat) * list nat :=
   match es with
   | [] => (Some t, t)
   | [e] => (Some (t ++ [e]), t ++ [e])
@@ -155,4 +155,21 @@ Definition failing_apply (t : list nat) (es : list nat) : option (list nat) * li
 
 Lemma apply_failure_leaves_partial_edits :
   run_stmt (list nat) nat failing_apply [] [CGood 1; CGood 2] = (RErr, [1; 1]).
+Proof. reflexivity. Qed.
+
+(* a one-shot storage error in the SECOND ApplyEdits call (tableEditor.Close, after StatementComplete has applied and
+   published everything): the statement is reported as failed although all of its changes are in place *)
+Definition close_fault_apply (n : nat) (t : list nat) (es : list nat) : option (list nat) * list nat :=
+  if Nat.eqb n 2 then (None, t) else (Some (t ++ es), t ++ es).
+
+Lemma apply_error_at_close_after_publish :
+  run_stmt (list nat) nat close_fault_apply [7] [CGood 1; CGood 2] = (RErr, [7; 1; 2]).
+Proof. reflexivity. Qed.
+
+(* a one-shot error in the FIRST call (StatementComplete swallows it: returns nil) is repaired by the retry in Close *)
+Definition first_fault_apply (n : nat) (t : list nat) (es : list nat) : option (list nat) * list nat :=
+  if Nat.eqb n 1 then (None, t) else (Some (t ++ es), t ++ es).
+
+Lemma apply_error_in_statement_complete_is_swallowed :
+  run_stmt (list nat) nat first_fault_apply [7] [CGood 1; CGood 2] = (ROk, [7; 1; 2]).
 Proof. reflexivity. Qed.
